@@ -17,10 +17,20 @@ type vHash struct {
 
 func (h *vHash) Write(p []byte) (int, error) { return len(p), nil }
 func (h *vHash) Sum(b []byte) []byte {
+	src := h.other
 	if h.fed == 1 {
-		return h.sum
+		src = h.sum
 	}
-	return h.other
+	// hash.Hash.Sum APPENDS the digest to b: when b has room, the digest lands in b's backing array (Sum(x[:0]) overwrites
+	// x), otherwise in a fresh one
+	if b != nil && cap(b)-len(b) >= len(src) && len(src) > 0 {
+		out := b[:len(b)+len(src)]
+		for i := 0; i < len(src); i++ {
+			out[len(b)+i] = src[i]
+		}
+		return out
+	}
+	return src
 }
 func (h *vHash) Reset()         { h.fed = 0 }
 func (h *vHash) Size() int      { return len(h.sum) }
@@ -58,17 +68,23 @@ func harnessC13() {
 	if vChoice(2) == 1 {
 		sc.Hash = nil
 	}
+	// the configured checksum as the caller gave it (Check has no business changing it)
+	var c0 [16]byte
+	n0 := len(c)
+	for i := 0; i < n0; i++ {
+		c0[i] = c[i]
+	}
 	ok, err := sc.Check("/bin/plugin")
 	vRecord("hashNil", sc.Hash == nil)
 	vRecord("openFails", openFails)
 	vRecord("out.ok", ok)
 	vRecord("out.err", err != nil)
 
-	// reference: byte-for-byte, length-sensitive equality
-	equal := len(c) == len(d)
+	// reference: byte-for-byte, length-sensitive equality with the checksum as configured
+	equal := n0 == len(d)
 	if equal {
-		for i := 0; i < len(c); i++ {
-			if c[i] != d[i] {
+		for i := 0; i < n0; i++ {
+			if c0[i] != d[i] {
 				equal = false
 			}
 		}
@@ -96,10 +112,10 @@ func harnessC13() {
 		d2 := vNondetBytes("d2", maxLen)
 		h.sum = d2
 		ok2, err2 := sc.Check("/bin/plugin")
-		equal2 := len(c) == len(d2)
+		equal2 := n0 == len(d2)
 		if equal2 {
-			for i := 0; i < len(c); i++ {
-				if c[i] != d2[i] {
+			for i := 0; i < n0; i++ {
+				if c0[i] != d2[i] {
 					equal2 = false
 				}
 			}
